@@ -54,6 +54,7 @@ func runC05(c *Ctx) {
 	c.rule("P7", "the kill chain is unconditional: in CleanKillOfCommand, cmdWrapper.Stop, ps.KillWithChildren and killProcessAndChildren every path to a return passes the next link of the chain (… → killGroup), except through the failing side of an error test or the nil side of a nil test", 4)
 	c.rule("P8", "the monitor's stop callback can run while Execute is blocked in Run: no lock held across Run/Wait is needed by it (exec.Cmd.Cancel alone does not cover a leader that has already exited)", 1)
 	c.rule("P9", "killGroup signals the group of a leader that is already gone: the ESRCH outcome of Getpgid does not end the function before the kill", 1)
+	c.rule("P11", "the context under which exec.Cmd.Cancel kills the tree is not given a deadline when the command is built (nor is it the command's own, finished, context): the stop may come at any instant after the spawn", 1)
 	c.rule("P10", "the cancellation of the command (exec.Cmd.Cancel) kills the tree first: nothing that signals the group leader alone runs before the tree kill — once the leader is gone and reaped, the tree kill can no longer find its group", 1)
 	c.rule("P3", "no lock held across exec.Cmd.Run/Wait is needed by the monitor's stop callback, unless exec.Cmd.Cancel is set to a function that reaches the group kill", 1)
 	c.rule("P4", "isRunning.Store(true) is followed by isRunning.Store(false) on every path to exit (Execute); stop() clears the flag on every path after stopping", 2)
@@ -761,6 +762,48 @@ func (c *Ctx) c05CancelKillsTheTreeFirst() {
 					bad = what + " at " + c.ipos(cl)
 				}
 			})
+			// P11: "for every instant of the stop relative to the spawn": the context the tree kill runs under was not given
+			// a deadline (or a cancel function somebody may already have called) when the command was built — the hook runs at
+			// an arbitrary later time and an expired context makes the kill return before it signals anything
+			{
+				early := ""
+				for _, a := range kill.Call.Args {
+					if a.Type().String() != "context.Context" {
+						continue
+					}
+					for _, l := range sources(a, deriveOpts{}) {
+						r := resolveValue(l)
+						ex, isEx := r.(*ssa.Extract)
+						if !isEx {
+							continue
+						}
+						mk, isCall := ex.Tuple.(*ssa.Call)
+						if !isCall {
+							continue
+						}
+						switch nme := calleeFull(&mk.Call); nme {
+						case "context.WithTimeout", "context.WithDeadline", "context.WithTimeoutCause", "context.WithDeadlineCause":
+							if mk.Parent() != lit {
+								early = short(nme) + " at " + c.ipos(mk)
+							}
+						}
+					}
+					// a context derived from the command's own context is done by the time the hook runs
+					if ctxDerived(a) {
+						withoutCancel := false
+						allInstrs(outermost(f), func(i2 ssa.Instruction) {
+							if c2, ok := i2.(*ssa.Call); ok && calleeFull(&c2.Call) == "context.WithoutCancel" {
+								withoutCancel = true
+							}
+						})
+						if !withoutCancel && early == "" {
+							early = "the context of the command itself (done when the hook runs)"
+						}
+					}
+				}
+				c.check(early == "", "P11", fname(outermost(f))+"/kill-context-made-when-the-hook-runs", c.ipos(kill), "the tree kill runs under a context that is not timed from the creation of the command",
+					"the context handed to the tree kill comes from "+early+", i.e. its clock started when the command was built: a cancellation that arrives later than that finds it expired, the kill returns 'timeout' before it signals anything, only the leader is killed (by os/exec) and the descendants survive, holding the pipes Execute() waits on")
+			}
 			c.check(bad == "", "P10", key, c.ipos(kill), "the tree kill is the first thing the cancellation does",
 				bad+" can run before the tree kill: if it takes the leader down, Execute()'s Wait reaps it at once, the tree kill then fails to find the process (or to terminate it) and never reaches the group kill — the descendants survive and keep Execute() blocked")
 		})
